@@ -269,6 +269,7 @@ def run_cases(ctx, exe, cases, cnt, var, cov, dist, distinct, nested=False):
         stoks = []
         for u, (_, t) in zip(users, c["srcs"]):
             stoks += tokens(t, name=u)
+        c["stoks"] = stoks
         mlines.append("rt %d %d %o %d %d %d %d %s %s %d %s %d %d %d %s %s" % (
             c["p"], c["y"], c["um"], cnt, var["rule"], var["dch"], c.get("fsz", 0), hx(CWD), hx(c["dest"]),
             int(c["reverse"]), hx(c["host"]), var["ssec"], var["sfix"], len(ents),
@@ -423,6 +424,29 @@ def run_cases(ctx, exe, cases, cnt, var, cov, dist, distinct, nested=False):
             lines.append("sink %d %d %o %d %d %d %d %s %s %s %s" % (
                 c["p"], c["y"], c["um"], cnt, var["rule"], var["dch"], c.get("fsz", 0), hx(CWD), hx(c["dest"]), f["c2s"],
                 " ".join(e.token() for e in ents_l[i])))
+        # the interactive sender model (Pcp/Session.lean) against the receiver model: bytes sent, replies, file system
+        slines = ["sess %d %d %o %d %d %d %d %s %s %d %s %d %d %d %d %s %s" % (
+            c["p"], c["y"], c["um"], cnt, var["rule"], var["dch"], c.get("fsz", 0), hx(CWD), hx(c["dest"]),
+            int(c["reverse"]), hx(c["host"]), var["ssec"], var["sfix"], var.get("skipref", 0), len(ents_l[i]),
+            " ".join(e.token() for e in ents_l[i]), " ".join(c["stoks"])) for i, c, cj, f, replies, m in errcases]
+        for (i, c, cj, f, replies, m), sl in zip(errcases, ctx.model("pcp", "".join(l + "\n" for l in slines))):
+            ms = pcp.parse_model(sl)
+            dist["sessions_checked"] = dist.get("sessions_checked", 0) + 1
+            if ms["c2s"] != f["c2s"]:
+                # once the receiver has ended (`E` at the top level) what the client still writes is lost
+                if ms["early"] == "1" and ms["c2s"] != "~" and (ms["c2s"].startswith(f["c2s"].rstrip("-")) or
+                                                               f["c2s"].startswith(ms["c2s"].rstrip("-"))):
+                    dist["sessions_receiver_ended_early"] = dist.get("sessions_receiver_ended_early", 0) + 1
+                else:
+                    ctx.disagreement("pcp session: bytes sent after error replies", "real %s (%s) model %s (%s)" % (
+                        f["c2s"][:300], f["c2slen"], ms["c2s"][:300], ms["c2slen"]), cj)
+                    continue
+            if ms["replies"] != replies:
+                ctx.disagreement("pcp session replies", "impl %s model %s" % (replies[:12], ms["replies"][:12]), cj)
+                continue
+            diffs = pcp.compare_fs(ms["fs"], snaps[i], t0)
+            if diffs:
+                ctx.disagreement("pcp session file system", "; ".join(diffs[:4]), cj)
         for (i, c, cj, f, replies, m), ml in zip(errcases, ctx.model("pcp", "".join(l + "\n" for l in lines))):
             dist["error_paths_checked"] = dist.get("error_paths_checked", 0) + 1
             mm = pcp.parse_model(ml)
@@ -1005,10 +1029,12 @@ def run_multi(ctx, exe, cases, cnt, var, cov, dist):
 
 def probe_sender(ctx, exe):
     """which sender is in /repo?  ssec = the T record carries microseconds (repair of F11-MTIME-SUBSEC);
-    sfix = a source the user names like the sentinel is sent as a file (repair of F11-SENTINEL-NAME)"""
+    sfix = a source the user names like the sentinel is sent as a file (repair of F11-SENTINEL-NAME);
+    skipref = the entries of a directory the target refused are skipped (repair of F11-DIRFAIL-SCATTER)"""
     out = {}
     for key, trees in (("ssec", [Node(b"probe", "f", 0o644, 1234567890, nsec=123456000, gen=(5, 3))]),
-                       ("sfix", [Node(b"a!b@c#d$", "f", 0o644, 1234567890, gen=(5, 3))])):
+                       ("sfix", [Node(b"a!b@c#d$", "f", 0o644, 1234567890, gen=(5, 3))]),
+                       ("skipref", [Node(b"t", "d", 0o755, 1234567890, kids=[Node(b"kid", "f", 0o644, 1234567890, gen=(5, 3))])])):
         sdir = os.path.join(ctx.scratch, "probe_src")
         j = os.path.join(ctx.scratch, "probe_jail")
         for d in (sdir, j):
@@ -1019,7 +1045,8 @@ def probe_sender(ctx, exe):
             materialize(os.fsencode(sdir), t, future)
             set_meta(os.fsencode(sdir), t, future)
         pcp.build_jail(j, [Ent(b"", "d", 0o755, OLD), Ent(b"o", "d", 0o755, OLD + 1), Ent(b"o/w", "d", 0o755, OLD + 3),
-                           Ent(b"o/w/dest", "d", 0o755, OLD + 7)])
+                           Ent(b"o/w/dest", "d", 0o755, OLD + 7)] +
+                       ([Ent(b"o/w/dest/t", "f", 0o644, OLD + 8, b"in the way")] if key == "skipref" else []))
         op = "rt %s /o/w %s 1 0 22 0 %s 0 %s %s" % (j, hx(b"dest"), sdir, hx(b"h"), " ".join(hx(t.name) for t in trees))
         (ans, crash), = run_batch([exe], [[op]], env=dict(os.environ, ASAN_OPTIONS="detect_leaks=0"))
         c2s = pcp.unhx(pcp.fields(ans[0]).get("c2s", "-")) if ans else b""
@@ -1027,6 +1054,9 @@ def probe_sender(ctx, exe):
             import re
             m = re.search(rb"T\d+ (\d+) \d+ \d+\n", c2s)
             out[key] = int(bool(m) and int(m.group(1)) != 0)
+        elif key == "skipref":
+            # the directory `t` is refused (a file of that name is in the way): does the client still send its entry?
+            out[key] = int(b" kid\n" not in c2s)
         else:
             out[key] = int(not c2s.startswith(b"E\n"))
         for d in (sdir, j):
@@ -1036,6 +1066,7 @@ def probe_sender(ctx, exe):
 
 def run(ctx):
     rng = ctx.rng
+    pcp.BRANCHES.clear()
     ctx.gen_consts(["pcp"])
     ctx.lean_build([PROPS, "pdshmodel"])
     ctx.audit(PROPS)
@@ -1060,8 +1091,9 @@ def run(ctx):
         var = probe_variant(ctx, exe)
         var.update(probe_sender(ctx, exe))
         dist["receiver_variant"] = variant_text(var)
-        dist["sender_variant"] = "T record carries microseconds: %s; user-named sentinel sent as a file: %s" % (
-            "yes" if var["ssec"] else "no", "yes" if var["sfix"] else "no")
+        dist["sender_variant"] = ("T record carries microseconds: %s; user-named sentinel sent as a file: %s; entries of a "
+                                  "refused directory skipped: %s" % ("yes" if var["ssec"] else "no", "yes" if var["sfix"] else "no",
+                                                                     "yes" if var["skipref"] else "no"))
         ctx.log("variants:", dist["receiver_variant"], "|", dist["sender_variant"])
         n = 250 if ctx.quick() else 6000
         cases, mcases = [], []
@@ -1089,6 +1121,7 @@ def run(ctx):
         if os.environ.get("VERIF_C11_E2E", "1") != "0":
             run_e2e(ctx, cov, dist)
     cov["distinct_nontrivial"] = len(distinct)
+    pcp.branch_report(dist)
     cov["distribution"] = dist
     cov["traces_validated_against_impl"] = cov["evaluations"]
     return ctx.finish(
